@@ -48,15 +48,29 @@ Theorem C08_fast_path_cache : forall tk B1 R B2 tokens sz l,
 Proof. exact fast_cache. Qed.
 
 (* after any history of structural edits and text changes, stated on the list/text reference only *)
-Theorem C08_history_positions : forall LF ops s k t, 1 <= LF -> Inv s -> ops_valid (abs s) ops ->
+Theorem C08_history_positions : forall LF ops s k t, 1 <= LF -> Inv s -> pure s -> ops_valid (abs s) ops ->
   nth_error (ref_run (abs s) ops) k = Some t ->
   get_position (run_ops LF s ops) t =
     Ok (advance pos0 (concat (map (ref_texts (txt s) ops) (firstn k (ref_run (abs s) ops))))) /\
   get_index (run_ops LF s ops) t = Ok (Z.of_nat k).
 Proof. exact history_positions. Qed.
 
-Example C08_history_nonvacuous : Inv ex_s /\ ops_valid (abs ex_s) ex_ops /\
+Example C08_history_nonvacuous : Inv ex_s /\ pure ex_s /\ ops_valid (abs ex_s) ex_ops /\
   nth_error (ref_run (abs ex_s) ex_ops) 4 = Some 11%positive.
 Proof.
-  split; [exact (proj1 ex_inv)|]. split; [exact ex_ops_valid|]. rewrite (proj2 ex_inv). vm_compute. reflexivity.
+  split; [exact (proj1 ex_inv)|]. split; [exact ex_pure|]. split; [exact ex_ops_valid|]. rewrite (proj2 ex_inv). vm_compute. reflexivity.
 Qed.
+
+(* the value / indent setters of token models (SingleValueRawTokenModel.value, BlockComment.value/.indent):
+   new raw text = formatter(value), assigned through Token._update_raw_text (harness tie: ast check that the
+   setters call _update_raw_text).  For every formatter: the invariant is kept, so positions are right again *)
+Theorem C08_setter_positions : forall (V : Type) (fmt : V -> str) s t v s' r k, Inv s -> nth_error (abs s) k = Some t ->
+  setter fmt s t v = (s', r) ->
+  r = Ok tt /\ Inv s' /\ abs s' = abs s /\ txt s' t = fmt v /\ (forall u, u <> t -> txt s' u = txt s u) /\
+  printed s' = prefix_text s k ++ fmt v ++ concat (map (txt s) (skipn (S k) (abs s))) /\
+  (forall k' u, nth_error (abs s') k' = Some u ->
+     get_position s' u = Ok (advance pos0 (prefix_text s' k')) /\ get_index s' u = Ok (Z.of_nat k')).
+Proof. exact @setter_spec. Qed.
+
+Example C08_setter_nonvacuous : Inv ex_s /\ nth_error (abs ex_s) 4 = Some 5%positive.
+Proof. split; [exact (proj1 ex_inv)|]. rewrite (proj2 ex_inv). reflexivity. Qed.
